@@ -680,6 +680,31 @@ def inline_new_helpers(tr: dict, specs: dict, locked_fns: set) -> list:
     return notes
 
 
+_CLIENT_M = re.compile(
+    r"(?P<head>[ \t]*#\[verifier::external_body\]\s*\n[ \t]*pub fn (?P<name>\w+)\(&self, e: &mut Env(?P<params>[^)]*)\)\s*->\s*\(r: (?P<ret>\(\)|[^()]+(?:<[^()]*>)?)\)\s*\n"
+    r"\s*ensures xcall_post\(old\(e\)@, final\(e\)@, self\.address, (?P<fn>[^,]+),\s*(?P<args>.*?), r\.sv\(\)\),\s*\n[ \t]*\{ unimplemented!\(\) \}\n)", re.S)
+
+
+def add_try_client_methods(text: str) -> str:
+    """for each generated-client method modelled with the generic `xcall_post` contract, the SDK's `try_` variant (model/xcall.rs)"""
+    def rep(m):
+        name = m.group("name")
+        if name.startswith("try_") or re.search(r"\bfn try_%s\b" % re.escape(name), text):
+            return m.group(0)
+        fn, args, ret, params = m.group("fn"), m.group("args"), m.group("ret").strip(), m.group("params")
+        t = f"""    #[verifier::external_body]
+    pub fn try_{name}(&self, e: &mut Env{params}) -> (r: Result<Result<{ret}, ConversionError>, Result<SdkError, InvokeError>>)
+        ensures match r {{
+            Ok(Ok(v)) => xcall_post(old(e)@, final(e)@, self.address, {fn}, {args}, v.sv()),
+            Ok(Err(_)) => final(e)@.calls.len() > 0 && xcall_post(old(e)@, final(e)@, self.address, {fn}, {args}, final(e)@.calls.last().ret),
+            Err(_) => xcall_failed(old(e)@, final(e)@, self.address, {fn}, {args}),
+        }},
+    {{ unimplemented!() }}
+"""
+        return m.group(0) + t
+    return _CLIENT_M.sub(rep, text)
+
+
 # ------------------------------------------------------------------------------------------------
 # assembly
 
@@ -828,7 +853,7 @@ def assemble(unit: dict, scratch: str, passname="A") -> Assembled:
     if "stdauto" not in models and not unit.get("no_stdauto"):
         models.insert(1 if models and models[0] == "core" else 0, "stdauto")
     for m in models:
-        parts.append(f"// ==== model fragment {m} ====\n" + open(os.path.join(VERIF, "model", m + ".rs")).read())
+        parts.append(f"// ==== model fragment {m} ====\n" + add_try_client_methods(open(os.path.join(VERIF, "model", m + ".rs")).read()))
     # consts
     want_types = unit.get("types", ["*"])
     skip_types = set(unit.get("skip_types", []))
